@@ -49,7 +49,9 @@ MESSAGES = {
     "lt-gt": "a < b > c << d",
 }
 EXC_KINDS = ["ValueError", "RuntimeError", "KeyError", "UserError", "LibCustom", "LibCannotParse", "LibNoSuchOption",
-             "KeyboardInterrupt", "CodeInt", "CodeStr", "CodeNone", "OSError", "AssertionError"]
+             "KeyboardInterrupt", "CodeInt", "CodeStr", "CodeNone", "OSError", "AssertionError",
+             "TypeError", "AttributeError", "ZeroDivisionError", "StopIteration", "NotImplementedError", "IndexError"]
+SIGNATURES = ["strict", "flexible", "varargs"]
 ORIGINS = ["module", "deep:1", "deep:7", "deep:60", "pingpong:5", "exec:<string>", "exec:", "exec:deleted",
            "chain:1:explicit", "chain:3:implicit", "chain:2:explicit", "multiline", "multiline-nested"]
 LINES = [(["run"], {"a1": None}, {}), (["run", "v1"], {"a1": "v1"}, {}), (["run", "--foo", "v1"], {"a1": "v1"}, {"foo": True}),
@@ -86,7 +88,9 @@ def make_exception(kind, message):
     if kind == "OSError":
         return OSError(2, message)
     return {"ValueError": ValueError, "RuntimeError": RuntimeError, "KeyError": KeyError,
-            "AssertionError": AssertionError}[kind](message)
+            "AssertionError": AssertionError, "TypeError": TypeError, "AttributeError": AttributeError,
+            "ZeroDivisionError": ZeroDivisionError, "StopIteration": StopIteration,
+            "NotImplementedError": NotImplementedError, "IndexError": IndexError}[kind](message)
 
 
 def raise_from(origin, exc):
@@ -135,14 +139,30 @@ def build(case, log):
 
     outcome = case["outcome"]
 
-    class RunHandler(object):
-        def handle(self, args, io, command):
-            log.append(("run", args.arguments(False), args.options(False)))
-            if outcome["kind"] == "return":
-                return RETURNS[outcome["value"]]
-            exc = make_exception(outcome["exc"], outcome["message"])
-            log.append(("raised", exc))
-            raise_from(outcome["origin"], exc)
+    def body(args, io, command):
+        log.append(("run", args.arguments(False), args.options(False)))
+        if command is None or command.name != "run":
+            log.append(("wrong-command-object", repr(command)))
+        if outcome["kind"] == "return":
+            return RETURNS[outcome["value"]]
+        exc = make_exception(outcome["exc"], outcome["message"])
+        log.append(("raised", exc))
+        raise_from(outcome["origin"], exc)
+
+    # the handler's signature: exactly (args, io, command), with a defaulted command, or *args
+    signature = case.get("signature", "strict")
+    if signature == "flexible":
+        class RunHandler(object):
+            def handle(self, args, io, command=None):
+                return body(args, io, command)
+    elif signature == "varargs":
+        class RunHandler(object):
+            def handle(self, *a):
+                return body(a[0], a[1], a[2] if len(a) > 2 else None)
+    else:
+        class RunHandler(object):
+            def handle(self, args, io, command):
+                return body(args, io, command)
 
     class OtherHandler(object):
         def handle(self, args, io, command):
@@ -223,6 +243,8 @@ def check_run(ctx, case, by_construction=False):
     else:
         if len(runs) != 1:
             ctx.fail("run", "C04.once", case, "handler invoked exactly once", log_repr(log), sig="count")
+        elif any(e[0] == "wrong-command-object" for e in log):
+            ctx.fail("run", "C04.once", case, "handler receives its command object", log_repr(log), sig="command-object")
         else:
             got_args = {k: v for k, v in runs[0][1].items()}
             got_opts = {k: v for k, v in runs[0][2].items() if k == "foo"}  # the global switches are C09's subject
@@ -309,6 +331,7 @@ def enumerated_cases(tier):
                 for a in ansis[1:]:
                     k += 1
                     yield {"line": k % len(LINES), "verbosity": v, "ansi": a, "listener": "absent",
+                           "signature": SIGNATURES[(k // 3) % len(SIGNATURES)],
                            "outcome": {"kind": "raise", "exc": ek, "message": MESSAGES[mk],
                                        "origin": ORIGINS[k % len(ORIGINS)]}}
     for lk in ("passes", "handles:0", "handles:3", "handles:300", "handles:-1", "raises"):
